@@ -40,7 +40,8 @@ def cases(tier, seed):
                 if tier == 'quick' and length == 3 and (idx + seed) % 2:
                     continue        # quick: every second length-3 sequence (the other half with the next seed)
                 yield {'start': {'shape': list(start), 'numtype': nt, 'bo': bo},
-                       'ops': list(ops), 'vseed': f'{seed}:{idx}'}
+                       'ops': list(ops), 'vseed': f'{seed}:{idx}',
+                       'observe': 'end' if length > 1 and idx % 3 == 0 else 'every'}
     rng = random.Random(f'C03:{seed}:long')
     nlong = 400 if tier == 'quick' else 4000
     allops = hist_array.ALPHABET + hist_array.EXTRA
@@ -49,7 +50,8 @@ def cases(tier, seed):
         start = rng.choice(hist_array.STARTS + [(1,), (5, 1), (0, 2, 1, 2)])
         n = rng.randint(30, 60 if tier == 'quick' else 200)
         yield {'start': {'shape': list(start), 'numtype': nt, 'bo': bo, 'chunklen': rng.choice([1, 2, 100])},
-               'ops': [rng.choice(allops) for _ in range(n)], 'vseed': f'{seed}:L{k}'}
+               'ops': [rng.choice(allops) for _ in range(n)], 'vseed': f'{seed}:L{k}',
+               'observe': 'sparse' if k % 2 else 'every'}
 
 
 def run_case(case, env):
